@@ -22,6 +22,11 @@ class Cycles:
         self.cur = {d: None for d in self.devs}
         self.offset = {d: 0 for d in self.devs}
         self.offset.update({k: 0 for k in self.sinks})
+        # (one-shot offsets requested before the first run stay pending until the device's first cycle)
+        for i in items:
+            if i.get('pre_offset') and i['id'] in self.offset:
+                self.offset[i['id']] = i['pre_offset']
+                ctx.count('offsets_requested_before_the_first_run')
         self.oper = {d: True for d in self.devs}
         self.n_recv = self.n_script = self.n_shut = self.n_fin = 0
         self.n_cb_off = 0
